@@ -54,7 +54,7 @@ type byzItem struct {
 func (b *byzState) heightsInPlay() map[uint32][2]uint64 {
 	r := map[uint32][2]uint64{}
 	for _, n := range b.w.nodes {
-		if n.kind.real() && n.d != nil && !n.pendingReset {
+		if n.live() && n.d != nil && !n.pendingReset {
 			h := n.d.BlockIndex
 			if h == n.height+1 {
 				r[h] = [2]uint64{uint64(n.tip), n.tipTS}
@@ -67,7 +67,7 @@ func (b *byzState) heightsInPlay() map[uint32][2]uint64 {
 func (b *byzState) viewsInPlay(h uint32) []byte {
 	vs := map[byte]bool{}
 	for _, n := range b.w.nodes {
-		if n.kind.real() && n.d != nil && n.d.BlockIndex == h {
+		if n.live() && n.d != nil && n.d.BlockIndex == h {
 			v := n.d.ViewNumber
 			vs[v] = true
 			if v < b.w.sc.MaxView {
@@ -216,7 +216,7 @@ func (b *byzState) runScript() {
 func (b *byzState) dstMasks(id int) []uint64 {
 	var honest []int
 	for _, n := range b.w.nodes {
-		if n.kind.real() && n.id != id {
+		if n.live() && n.id != id {
 			honest = append(honest, n.id)
 		}
 	}
